@@ -18,7 +18,7 @@ from typing import Any, Dict, List, Optional, Tuple
 from ..core import AnalysisError, ClassInfo, Ctx, FuncInfo, body_without_docstring, calls_in, dotted, norm, walk_no_nested
 from .. import spec_tables as spec
 from ..absint import AObj, Evaluator, Raised, construct, make_obj, set_public
-from ..fold import Folder, Sym, Unfoldable
+from ..fold import Abstract, Folder, Sym, Unfoldable
 from ..layout import NotLayout, TBls, bls_term, explore, mentions_only_min_max, show_term, term_str, under
 from ..regions import inline_properties, trivial_property_expr
 from .c02 import _field_type_grids, _layout_hook, aggregate_term, spec_structure, spec_union
@@ -181,7 +181,16 @@ def _value_record(kind: str, args: List[Any]) -> Any:
     args = [tuple(a) if isinstance(a, list) else a for a in args]
     if kind == "Set" and len(args) == 2 and isinstance(args[1], ClassInfo) and isinstance(args[0], tuple) and args[0] and all(isinstance(x, tuple) and x and x[0] == args[1].name for x in args[0]):
         args = args[:1]
-    return (kind,) + tuple(args)
+    return _ValueRecord((kind,) + tuple(args))
+
+
+class _ValueRecord(tuple, Abstract):
+    """(kind, *constructor arguments): reads, compares and prints as the tuple it is; `isinstance(v, <expression class>)` in
+    the evaluated code answers by the kind (every expression value is an `Any`)"""
+
+    @property
+    def _isa_(self) -> Any:
+        return frozenset({self[0], "Any", "Primitive" if self[0] in ("Rational", "Boolean", "String") else "Container"})
 
 
 def _expr_hook(ctx: Ctx, mod: Any, cls: Optional[ClassInfo]) -> Any:
